@@ -180,6 +180,11 @@ class Ctx:
         self.notes = []
         self.nbranch = 0
         self.covered = set()
+        self.imprecise = []       # over-approximations made on this path (a refutation may then be spurious)
+
+    def note_imprecise(self, what):
+        if what not in self.imprecise:
+            self.imprecise.append(what)
 
     # -- assumptions
     def assume(self, z):
@@ -296,6 +301,9 @@ class Ctx:
     def prove(self, z, name, meta=None):
         if isinstance(z, bool):
             z = z3.BoolVal(z)
+        if self.imprecise:
+            meta = dict(meta or {})
+            meta["imprecise"] = list(self.imprecise)
         vc = VC(name, list(self.pc), z, meta)
         self.vcs.append(vc)
         if getattr(self, "eager", False):
